@@ -58,8 +58,11 @@ def build_model(rng, k_target, force=None):
     terms = []
     vars_ = ["x", "y"]
     used = []
+    via = k_target >= 1 and rng.random() < 0.35      # the first singularity sits in an intermediate that depends on a state: u = x - 1
     for i in range(k_target):
         v = vars_[i % 2] if i < 2 else "x"
+        if i == 0 and via:
+            v = "u"
         cand = [b for b in blocks(v, rng) if (v, b[1]) not in used]
         if i == 0 and force is not None:
             bl = blocks(v, rng)
@@ -73,11 +76,14 @@ def build_model(rng, k_target, force=None):
     op = rng.choice([" + ", " * "]) if k_target <= 1 else " + "
     e = op.join(terms + [f"({reg})"]) if terms else reg
     lines = [f"s = {e}", "q = b/x", "r = a*x + y", "dx_dt = -x + s", "dy_dt = q - y + r"]
+    if via:
+        lines.insert(0, "u = x - 1")
     if layout == "single":
         text = "states(x=1, y=2)\nparameters(a=1.5, b=2, k=3)\n" + "\n".join(lines) + "\n"
     else:
+        nr = 4 if via else 3
         text = ('states("Membrane", x=1, y=2)\nparameters("Membrane", a=1.5, b=2, k=3)\nexpressions("Rates")\n'
-                + "\n".join(lines[:3]) + '\nexpressions("Membrane")\n' + "\n".join(lines[3:]) + "\n")
+                + "\n".join(lines[:nr]) + '\nexpressions("Membrane")\n' + "\n".join(lines[nr:]) + "\n")
     return text, sing_pts, layout
 
 
@@ -107,7 +113,7 @@ def main(argv=None):
         level="proof",
         rule="one monitored expression built from 0-3 removable-singularity blocks (x/(exp(x)-1), sin(x)/x, (x-a)/(exp(x)-exp(a)), "
              "x/(b(exp(x)-1)), a shifted gate rate, (exp(x)-1)/x, and four that are not zeros of a denominator: x log|x|, (x-a) log|x-a|, x sin(1/x), "
-             "(x+47) log|x+47|; and three quotients with a common factor: (x²-4)/(x-2), (e^{2x}-1)/(e^x-1), (x³-8)/(x-2)) in one or two states, combined by + or *, next to a regular and an infinite "
+             "(x+47) log|x+47|; and three quotients with a common factor: (x²-4)/(x-2), (e^{2x}-1)/(e^x-1), (x³-8)/(x-2)) in one or two states, in 35% of the models through an intermediate u = x - 1, combined by + or *, next to a regular and an infinite "
              "(b/x) expression; single-component and split layouts (expression in a component without states); values on and off every "
              "singular point; non-trivial = at least one removable singularity",
         trusted_base=["Coq 8.16.1 kernel", "sympy.singularities / limit as oracles (limits re-checked with mpmath, 50 digits)", "numpy as evaluator"],
@@ -163,13 +169,21 @@ def check(rep, drv, rng, text, sing_pts, k_target, layout):
     for v, ptsl in sing_pts.items():
         for p0 in ptsl:
             stv = {"x": 1.5, "y": 1.25}
-            stv[v] = p0
+            if v == "u":
+                stv["x"] = p0 + 1.0       # u = x - 1
+            else:
+                stv[v] = p0
             st = [stv[s] for s in ss]
             v2 = run(n2, st, ps)
             # the limit, from 50-digit evaluation next to the point
             mpmath.mp.dps = 50
             def s_at(val):
-                env = dict(stv); env[v] = val
+                env = dict(stv)
+                if v == "u":
+                    env["x"] = val + 1
+                else:
+                    env[v] = val
+                env["u"] = mpmath.mpf(env["x"]) - 1
                 f = mpmath_eval(text_expr(text, "s"), env, pvals)
                 return f
             try:
